@@ -368,6 +368,9 @@ func Build(t *TxSpec, keys map[string]Key, nodeChain string) (*Built, error) {
 		tx.Time++
 		t.Time = tx.Time
 		sigok = false
+	case "version-0", "version-2": // the version field on the wire differs from the signed one (0 is what a missing proto3 field decodes to)
+		tx.Version = map[string]uint32{"version-0": 0, "version-2": 2}[t.Tamper]
+		sigok = false
 	default:
 		if strings.HasPrefix(t.Tamper, "siglen:") { // the signature cut or zero-padded to n bytes
 			n, _ := strconv.Atoi(t.Tamper[len("siglen:"):])
